@@ -60,9 +60,20 @@ def gen_cases(tier, seed):
                     # the worker gives up with SystemExit (not an Exception subclass)
                     start.append({'kind': 'start-fault', 'name': name, 'tree': tree, 'fail_leaf': leaf[1], 'fail_index': wi, 'init_kind': 'sysexit',
                                   'gc_threshold': None, 'seed': rng.randrange(1 << 30)})
+                if name in ('T3', 'P2', 'seqTP', 'ensTP', 'swTP') and wi in (0, leaf[2] - 1):
+                    # the worker leaves __init__ with sys.exit(0) / sys.exit(): there is no error to re-raise, but the server must not come up without it
+                    start.append({'kind': 'start-fault', 'name': name, 'tree': tree, 'fail_leaf': leaf[1], 'fail_index': wi, 'init_kind': 'sysexit0',
+                                  'gc_threshold': None, 'seed': rng.randrange(1 << 30)})
         for wl in ('none', 'ok', 'failures', 'timeouts', 'abandoned-stream'):
             stop.append({'kind': 'stop', 'name': name, 'tree': tree, 'workload': wl, 'cycles': 3, 'pending': rng.choice([50, 150, 400]),
                          'pad': rng.choice([100, 1000, 4000]), 'mode': rng.choice(['sync', 'sync', 'async']), 'seed': rng.randrange(1 << 30)})
+    # a worker dies of a non-Exception error raised by the user's call() (SystemExit): by design that stops the servlet; leaving the context may
+    # raise the worker's error, but must still return, leave nothing behind, and the same object must come up again
+    for name, tree in trees():
+        if name in ('T3', 'P2', 'seqTP', 'ensTP', 'swTP', 'seqPT'):
+            for mode in ('sync', 'async'):
+                stop.append({'kind': 'stop', 'name': name, 'tree': tree, 'workload': 'worker-dies', 'cycles': 2, 'pending': 0, 'pad': 100, 'mode': mode,
+                             'die_leaf': len(SH.leaves(tree)) - 1 if mode == 'sync' else 0, 'seed': rng.randrange(1 << 30)})
     for name, tree in trees():
         if SH.has_process(tree):
             big.append({'kind': 'stop', 'name': name, 'tree': tree, 'workload': 'abandoned-stream', 'cycles': 2, 'pending': 300, 'pad': 200_000,
@@ -79,7 +90,7 @@ def gen_cases(tier, seed):
             rng.shuffle(lst)
         must = {'seqPT', 'seqPP', 'P3b', 'ensTP', 'seq-ensP'}  # multi-worker process stage upstream of another reader, process ensemble members
         bigq = [c for c in big if c['name'] in must and c['mode'] == 'sync'] + [c for c in big if c['mode'] == 'async' and c['name'] in ('P2', 'seqPT', 'seqPP', 'seq-ensP')]
-        cases = thr_s + prc_s[:14] + [c for c in prc_s[14:] if c.get('init_kind')] + thr_e + prc_e[:12] + bigq
+        cases = thr_s + prc_s[:14] + [c for c in prc_s[14:] if c.get('init_kind')] + thr_e + prc_e[:12] + [c for c in prc_e[12:] if c['workload'] == 'worker-dies'] + bigq
     else:
         cases = start + stop + big
         for c in list(start):
@@ -189,7 +200,9 @@ def run_start_fault(case):
             pass
     else:
         e = box.get('exc')
-        if case.get('init_kind') == 'sysexit':
+        if case.get('init_kind') == 'sysexit0':
+            obs['enter_raised_own_error'] = 1  # any error will do: the worker's own exit carries the 'success' code
+        elif case.get('init_kind') == 'sysexit':
             if not isinstance(e, SystemExit) or f"{case['fail_leaf']}[{case['fail_index']}]" not in str(e.code):
                 viol.append({'mech': 'lifecycle/enter-raised-other-error', 'msg': f'__enter__ raised {e!r}, expected the worker\'s SystemExit'})
             else:
@@ -314,6 +327,13 @@ def run_stop(case):
                 except BaseException as e:  # noqa: BLE001
                     y = e
                 res.append((t, y))
+        elif wl == 'worker-dies':
+            res = small_workload(server, tree, n=4, client=cycle)
+            t = ('tok', cycle, 99, ((lv[case['die_leaf']][1], 'fail', 'SystemExit'),))
+            try:
+                server.call(t, timeout=3)
+            except BaseException as e:  # noqa: BLE001
+                box['fatal_outcome'] = repr(e)[:100]
         elif wl == 'timeouts':
             for s in range(10):
                 t = ('tok', cycle, s, ((lv[0][1], 'sleep', 0.02),))
@@ -362,6 +382,19 @@ def run_stop(case):
                     y = e
                 if wl != 'timeouts':
                     res.append((t, y))
+        elif wl == 'worker-dies':
+            for s in range(4):
+                t = ('tok', cycle, s, ())
+                try:
+                    y = await server.call(t, timeout=30)
+                except Exception as e:  # noqa: BLE001
+                    y = e
+                res.append((t, y))
+            t = ('tok', cycle, 99, ((lv[case['die_leaf']][1], 'fail', 'SystemExit'),))
+            try:
+                await server.call(t, timeout=3)
+            except BaseException as e:  # noqa: BLE001
+                box['fatal_outcome'] = repr(e)[:100]
         elif wl == 'abandoned-stream':
             toks = [('tok', cycle, s, (('_', 'pad', pad),)) for s in range(case['pending'])]
 
@@ -386,15 +419,25 @@ def run_stop(case):
         def one_cycle():
             if is_async:
                 async def main():
-                    async with server:
-                        box['res'] = await workload_async(cycle)
-                        box['t_exit'] = time.monotonic()
+                    try:
+                        async with server:
+                            box['res'] = await workload_async(cycle)
+                            box['t_exit'] = time.monotonic()
+                    except BaseException as e:  # noqa: BLE001
+                        if wl != 'worker-dies' or 't_exit' not in box:
+                            raise
+                        box['exit_raised'] = repr(e)[:100]  # the dead worker's error may surface here
                     box['alive_at_return'] = alive_now(before)
                 asyncio.run(main())
             else:
-                with server:
-                    box['res'] = workload_sync(cycle)
-                    box['t_exit'] = time.monotonic()
+                try:
+                    with server:
+                        box['res'] = workload_sync(cycle)
+                        box['t_exit'] = time.monotonic()
+                except BaseException as e:  # noqa: BLE001
+                    if wl != 'worker-dies' or 't_exit' not in box:
+                        raise
+                    box['exit_raised'] = repr(e)[:100]
                 box['alive_at_return'] = alive_now(before)
             box['exit_s'] = time.monotonic() - box['t_exit']
 
@@ -410,6 +453,9 @@ def run_stop(case):
             mech = 'lifecycle/reentry-fails' if cycle > 0 else 'lifecycle/cycle-raised'
             viol.append({'mech': mech, 'msg': f'{case["name"]} cycle {cycle} workload {wl}: {e!r}'})
             return {'violations': viol, 'obs': obs, 'exit_after': True, 'nontrivial': True, 'sig': repr((case['name'], wl, case['mode'], case['pad']))}
+        if wl == 'worker-dies':
+            obs['exits_after_worker_death'] = obs.get('exits_after_worker_death', 0) + 1
+            obs['exits_that_raised'] = obs.get('exits_that_raised', 0) + (1 if box.get('exit_raised') else 0)
         obs['cycles'] += 1
         obs['max_exit_seconds'] = max(obs['max_exit_seconds'], round(box.get('exit_s', 0), 3))
         ok = judge_small(tree, box.get('res') or [], viol, f'cycle-{min(cycle, 1)}-{wl}')
@@ -430,7 +476,7 @@ def run_stop(case):
             break
         if viol:
             break
-    return {'violations': viol[:5], 'obs': obs, 'nontrivial': wl in ('timeouts', 'abandoned-stream'), 'sig': repr((case['name'], wl, case['mode'], case['pad'])),
+    return {'violations': viol[:5], 'obs': obs, 'nontrivial': wl in ('timeouts', 'abandoned-stream', 'worker-dies'), 'sig': repr((case['name'], wl, case['mode'], case['pad'])),
             'exit_after': bool(viol) or SH.has_process(tree),
             'sample': {'kind': 'stop', 'tree': case['name'], 'workload': wl, 'mode': case['mode'], 'pending': case['pending'], 'pad': case['pad'],
                        'cycles': obs['cycles'], 'pending_at_exit': obs['pending_at_exit'], 'max_exit_seconds': obs['max_exit_seconds']}}
@@ -452,4 +498,4 @@ def decide_inconclusive(obs, results, cases):
     return None
 
 
-RULE = RULE + "; SystemExit in a worker's __init__; unroutable and unpicklable requests in the failure workload; composites inside composites; large abandoned streams under AsyncServer"
+RULE = RULE + "; SystemExit in a worker's __init__; unroutable and unpicklable requests in the failure workload; composites inside composites; large abandoned streams under AsyncServer; sys.exit(0) / sys.exit() in a worker's __init__; a worker that dies of SystemExit raised by call(), then exit and re-entry of the same object"
